@@ -28,8 +28,9 @@ Linked(hop, p, c) ==
     [] hop.kind = "belongs" -> KeyEq(p.bfk, c.id)
     [] hop.kind = "m2m"     -> \E k \in DOMAIN hop.links : KeyEq(hop.links[k][1], p.id) /\ KeyEq(hop.links[k][2], c.id)
 
-\* condition on the rows of the LAST level: [on |-> BOOLEAN, gt |-> Int]  (v > gt)
-CondOK(cond, r) == ~cond.on \/ r.v > cond.gt
+\* condition on the rows of the LAST level: [on |-> BOOLEAN, gt |-> Int, eq |-> Int]
+\*   v > gt   or, when eq >= 0,   v > gt OR v = eq
+CondOK(cond, r) == ~cond.on \/ r.v > cond.gt \/ (cond.eq >= 0 /\ r.v = cond.eq)
 
 \* rows of level i+1 attached to row p of level i
 Children(levels, hops, i, p, unscoped, cond) ==
